@@ -7,7 +7,7 @@ Request: `<op> <rep> <flags> <path> <data>` (tab separated)
   locations), `first`, `has`, `locate`, `walk`, `nodes`, `firstnode`
 * rep: `<array kind>.<object kind>`, e.g. `any.map`, `gen.gen`, `indexed.keyed`, `rslice.struct`
 * flags: the deviation flags that are on, one letter each (`-` = none):
-  `e` innerEmptySlice, `n` locNegEnd, `c` locStartClamp, `w` walkDescentNoSelf, `u` nodesUnionNil,
+  `e` innerEmptySlice, `s` descentSiblings, `n` locNegEnd, `c` locStartClamp, `w` walkDescentNoSelf, `u` nodesUnionNil,
   `r` nodesFilterRev, `l` firstNodeLast, `z` nodesFilterNull; `P` = the pinned configuration
 * path: fragments separated by `/` (`-` = the empty path): `c:<hex key>`, `n:<int>`, `w`, `d`,
   `u:<member>,…` with members `k<hex>` / `i<int>`, `s:<start>:<end>:<step>` (`_` = absent),
@@ -154,8 +154,8 @@ def parseRep (s : String) : Option Rep :=
 def parseCfg (s : String) : Option Cfg :=
   if s = "P" then some Cfg.pinned
   else if s = "-" then some Cfg.fixed
-  else if s.toList.all fun c => "encwurlz".toList.contains c then
-    some { innerEmptySlice := s.contains 'e', locNegEnd := s.contains 'n', locStartClamp := s.contains 'c',
+  else if s.toList.all fun c => "esncwurlz".toList.contains c then
+    some { innerEmptySlice := s.contains 'e', descentSiblings := s.contains 's', locNegEnd := s.contains 'n', locStartClamp := s.contains 'c',
            walkDescentNoSelf := s.contains 'w', nodesUnionNil := s.contains 'u', nodesFilterRev := s.contains 'r',
            firstNodeLast := s.contains 'l', nodesFilterNull := s.contains 'z' }
   else none
